@@ -8,6 +8,11 @@ package main
 
 import (
 	"fmt"
+	"net"
+	"os"
+	"os/exec"
+	"path/filepath"
+	"strconv"
 	"strings"
 	"sync"
 	"time"
@@ -166,6 +171,11 @@ type labInst struct {
 	// they are counted and ignored - lost sensitivity, never a false alarm
 	expectIDs map[string]bool
 	late      int64
+	// bin engine: the service runs as the real binary in a subprocess
+	bin       *exec.Cmd
+	binLog    string
+	binExited chan struct{}
+	binStatus string
 }
 
 var labInstCount int
@@ -208,6 +218,131 @@ func (in *labInst) start(cfg labCfg) error {
 	}
 	in.sink = s
 	return nil
+}
+
+// startBin launches the real binary (built by the driver from the same overlay,
+// path in VERIF_BIN / VERIF_RACEBIN) with the generated YAML as --config.
+// env adds environment variables (KEEP_NEXT_HOP_ROUTE, DEFAULT_DIALOG_TIMEOUT).
+func (in *labInst) startBin(cfg labCfg, race bool, env ...string) error {
+	in.cfg = cfg
+	path := os.Getenv("VERIF_BIN")
+	if race {
+		path = os.Getenv("VERIF_RACEBIN")
+	}
+	if path == "" {
+		return fmt.Errorf("harness: no binary built for this check (VERIF_BIN empty)")
+	}
+	dir := os.Getenv("VERIF_OUT")
+	if dir == "" {
+		dir = os.TempDir()
+	}
+	yml := filepath.Join(dir, fmt.Sprintf("sipproxy-%d.yaml", in.c))
+	if err := os.WriteFile(yml, []byte(cfg.YAML()), 0o644); err != nil {
+		return err
+	}
+	in.binLog = filepath.Join(dir, fmt.Sprintf("sipproxy-%d.log", in.c))
+	lf, err := os.Create(in.binLog)
+	if err != nil {
+		return err
+	}
+	cmd := exec.Command(path, "--config", yml, "--log-level", "Error")
+	cmd.Stdout, cmd.Stderr = lf, lf
+	cmd.Env = append(os.Environ(), "GORACE=halt_on_error=0 exitcode=66")
+	cmd.Env = append(cmd.Env, env...)
+	if err := cmd.Start(); err != nil {
+		return err
+	}
+	in.bin = cmd
+	in.binExited = make(chan struct{})
+	go func() {
+		err := cmd.Wait()
+		in.binStatus = fmt.Sprint(err)
+		lf.Close()
+		close(in.binExited)
+	}()
+	// wait until the listeners are up
+	deadline := time.Now().Add(20 * time.Second)
+	for _, l := range cfg.Listens {
+		if l.TCPPort == 0 {
+			continue
+		}
+		for {
+			c, err := net.DialTimeout("tcp", l.Addr+":"+strconv.Itoa(l.TCPPort), time.Second)
+			if err == nil {
+				c.Close()
+				break
+			}
+			select {
+			case <-in.binExited:
+				return fmt.Errorf("the binary exited during start-up: %s (log %s)", in.binStatus, in.binLog)
+			default:
+			}
+			if time.Now().After(deadline) {
+				return fmt.Errorf("the binary did not open %s:%d within 20 s", l.Addr, l.TCPPort)
+			}
+			time.Sleep(20 * time.Millisecond)
+		}
+	}
+	time.Sleep(100 * time.Millisecond) // UDP-only listeners
+	s, err := in.hub.udpEP("sink", in.ip(250), 5999)
+	if err != nil {
+		return err
+	}
+	in.sink = s
+	return nil
+}
+
+// binAlive reports whether the subprocess is still running ("" = yes).
+func (in *labInst) binDead() string {
+	if in.bin == nil {
+		return ""
+	}
+	select {
+	case <-in.binExited:
+		b, _ := os.ReadFile(in.binLog)
+		tail := string(b)
+		if len(tail) > 3000 {
+			tail = tail[len(tail)-3000:]
+		}
+		return fmt.Sprintf("the sipproxy binary exited: %s\n%s", in.binStatus, tail)
+	default:
+		return ""
+	}
+}
+
+func (in *labInst) binRSSKiB() int {
+	if in.bin == nil || in.bin.Process == nil {
+		return 0
+	}
+	b, err := os.ReadFile(fmt.Sprintf("/proc/%d/status", in.bin.Process.Pid))
+	if err != nil {
+		return 0
+	}
+	for _, line := range strings.Split(string(b), "\n") {
+		if strings.HasPrefix(line, "VmRSS:") {
+			f := strings.Fields(line)
+			if len(f) >= 2 {
+				n, _ := strconv.Atoi(f[1])
+				return n
+			}
+		}
+	}
+	return 0
+}
+
+func (in *labInst) binRaces() int {
+	if in.binLog == "" {
+		return 0
+	}
+	b, _ := os.ReadFile(in.binLog)
+	return strings.Count(string(b), "WARNING: DATA RACE")
+}
+
+func (in *labInst) stopBin() {
+	if in.bin != nil && in.bin.Process != nil {
+		in.bin.Process.Kill()
+		<-in.binExited
+	}
 }
 
 func (in *labInst) barrierBytes(n int) []byte {
@@ -295,11 +430,20 @@ func (in *labInst) settle(send func([]byte) error, min int) ([]labRx, error) {
 		left := time.Until(deadline)
 		if left <= 0 {
 			if !seen {
+				if d := in.binDead(); d != "" {
+					return out, labLost{d}
+				}
 				return out, labLost{fmt.Sprintf("barrier #%d sent behind the stimulus never came out of the proxy within 20 s (message loop wedged, dead, or an in-domain 1xx response was dropped)", n)}
 			}
 			return out, nil
 		}
 		tw := time.Now()
+		if in.bin != nil && left > time.Second {
+			left = time.Second
+			if d := in.binDead(); d != "" {
+				return out, labLost{d}
+			}
+		}
 		r, ok := in.hub.waitOne(left)
 		V.ExtraAdd("settle_wait_us", time.Since(tw).Microseconds())
 		if !ok {
